@@ -331,6 +331,14 @@ def analyse(check: Check, repo: Repo) -> None:
             check.count("long_lived_writes_unreachable")
             continue
         check.count("long_lived_write_candidates")
+        if norm_key is None and kind == "attr-store" and isinstance(recv, ast.Name) and target.count(".") == 1:
+            # a direct attribute store on a local bound exactly once, in this function, to copy.copy(...) /
+            # copy.deepcopy(...): the object written is the copy made in this call, wherever the code lives (the
+            # premise of the 'local-copy' exemption, checked for the construct instead of for one listed function)
+            ok, why = check_premise(repo, rel, qual, target, "local-copy", node, m)
+            if ok:
+                check.oblige("SHARED-WRITE", construct, f"{kind} {target}: the receiver is a copy made in this call; premise checked: {why}", True)
+                continue
         if norm_key is None:
             sig = f"{kind} {target} writes a long-lived {ll.split('.')[-1]} object outside its constructor"
             check.oblige("SHARED-WRITE", construct, sig, False, finding=Finding("SHARED-WRITE", construct, sig, f"{qual}: `{target}` modifies an object that outlives the call and may be shared between parsers, parse() calls or threads", {"receiver_type": ll}))
@@ -376,8 +384,17 @@ def allocation_sites(check: Check, repo: Repo) -> None:
     cls = repo.cls("src/pest/state.py", "ParserState")
     class_level = [ast.unparse(s.targets[0]) for s in cls.body if isinstance(s, ast.Assign) and ast.unparse(s.targets[0]) != "__slots__"]
     check.oblige("ALLOC", "src/pest/state.py::ParserState", "no class-level (shared) field on ParserState" if not class_level else f"class-level fields on ParserState: {class_level}", not class_level)
-    for need in ("pos", "user_stack", "rule_stack", "atomic_depth", "tag_stack", "furthest_pos", "furthest_expected", "furthest_unexpected", "neg_pred_depth", "_pos_history"):
-        check.oblige("ALLOC", "src/pest/state.py::ParserState.__init__", f"{need} is initialised per instance" if need in fields else f"{need} is not initialised in ParserState.__init__", need in fields)
+    # every attribute a method of ParserState uses through `self` is bound per instance in __init__ (none comes into being
+    # later, none is found on the class): whatever the fields are called
+    members = {s.name for s in cls.body if isinstance(s, (ast.FunctionDef, ast.AsyncFunctionDef))}
+    used: dict[str, str] = {}
+    for fn in [x for x in cls.body if isinstance(x, ast.FunctionDef) and x.name != "__init__"]:
+        for n in ast.walk(fn):
+            if isinstance(n, ast.Attribute) and isinstance(n.value, ast.Name) and n.value.id == "self" and n.attr not in members and not (n.attr.startswith("__") and n.attr.endswith("__")):
+                used.setdefault(n.attr, fn.name)
+    for need in sorted(used):
+        check.oblige("ALLOC", "src/pest/state.py::ParserState.__init__", f"{need} is initialised per instance" if need in fields else f"{need} (used by ParserState.{used[need]}) is not initialised in ParserState.__init__", need in fields)
+    check.count("state_fields_used", len(used))
     check.count("state_fields", len(fields))
 
 
